@@ -355,8 +355,13 @@ func runC14(c *bx.Ctx) {
 		for i := 0; i < n; i++ {
 			p.SSRCs = append(p.SSRCs, 0xa0000000+uint32(i))
 		}
-		out, err := p.Marshal()
+		out, err, pan := safeMarshal(&p)
 		c.T(1)
+		if pan != "" {
+			c.Report("C14/ssrc-count/panic", "Marshal panics for a REMB packet with many SSRC entries: "+pan,
+				bx.Replay{Entry: "ReceiverEstimatedMaximumBitrate.Marshal", Value: fmt.Sprintf("%d SSRCs", n), Expected: "bytes or error", Observed: "panic: " + pan})
+			continue
+		}
 		if err != nil {
 			if n <= 255 {
 				c.Report("C14/ssrc-count/rejected", "a REMB packet with at most 255 SSRC entries does not marshal",
